@@ -72,17 +72,20 @@ type World struct {
 	sentN   int
 	plugged bool
 
-	pending                []Ev // expected since last sync
-	opsInSeg               int  // fs ops since last sync
-	segBurst               bool // segment had >1 op or a plug: kernel merging possible
+	pending                []Ev   // expected since last sync
+	pendOpt                []bool // parallel to pending: may legitimately be dropped (watch removed while pending)
+	opsInSeg               int    // fs ops since last sync
+	segBurst               bool   // segment had >1 op or a plug: kernel merging possible
 	step                   int
 	Findings               []Finding
 	Errs                   []error
 	Segments               []Segment // kept for samples and reports
 	StepErrs               []string  // errno of each executed step ("" = ok)
 	Delivered              int
-	ReadSizes              []int // number of notifications decoded per burst (lower bound: ops in plugged segments)
+	EvDirs                 map[string]bool // directories of delivered event names
+	ReadSizes              []int           // number of notifications decoded per burst (lower bound: ops in plugged segments)
 	closed                 bool
+	overflowing, lossy     bool
 	recurseOld, recurseSet bool
 	absorbing              bool
 	others                 []*fsnotify.Watcher
@@ -128,7 +131,15 @@ func NewWorld(c *Case) (w *World, err error) {
 		s.P, s.Q = w.subst(s.P), w.subst(s.Q)
 		w.fsop(s)
 	}
-	w.Sh, err = NewShadow()
+	// inotify instances are a per-user resource shared with whatever else
+	// runs on the machine: back off and retry before giving up
+	for try := 0; ; try++ {
+		w.Sh, err = NewShadow()
+		if err == nil || !resourceErr(err) || try > 900 {
+			break
+		}
+		time.Sleep(100 * time.Millisecond)
+	}
 	if err != nil {
 		return
 	}
@@ -138,10 +149,16 @@ func NewWorld(c *Case) (w *World, err error) {
 		w.recurseOld = fsnotify.VerifSetRecurse(true)
 		w.recurseSet = true
 	}
-	if c.Buf < 0 {
-		w.W, err = fsnotify.NewWatcher()
-	} else {
-		w.W, err = fsnotify.NewBufferedWatcher(uint(c.Buf))
+	for try := 0; ; try++ {
+		if c.Buf < 0 {
+			w.W, err = fsnotify.NewWatcher()
+		} else {
+			w.W, err = fsnotify.NewBufferedWatcher(uint(c.Buf))
+		}
+		if err == nil || !resourceErr(err) || try > 900 {
+			break
+		}
+		time.Sleep(100 * time.Millisecond)
 	}
 	if err != nil {
 		return
@@ -328,11 +345,17 @@ func (w *World) FsOp(s Step) error {
 		w.segBurst = true
 	}
 	raws := w.Sh.Drain()
+	var evs []Ev
 	if w.R != nil {
-		w.pending = append(w.pending, w.R.Feed(raws)...)
+		evs = w.R.Feed(raws)
 	} else {
-		w.pending = append(w.pending, w.M.Feed(raws)...)
+		evs = w.M.Feed(raws)
 	}
+	w.pending = append(w.pending, evs...)
+	for range evs {
+		w.pendOpt = append(w.pendOpt, false)
+	}
+	w.noteFeatures(s, err, raws, evs)
 	if w.absorbing {
 		if len(w.pending) > cap(w.W.Events) {
 			// more than the buffer can absorb: the reader will park in a send;
@@ -344,6 +367,54 @@ func (w *World) FsOp(s Step) error {
 		}
 	}
 	return err
+}
+
+// noteFeatures counts what the non-triviality rules of the checks refer to.
+func (w *World) noteFeatures(s Step, err error, raws []Raw, evs []Ev) {
+	if err != nil {
+		return
+	}
+	if len(evs) == 0 {
+		w.Feat["silent-ops"]++ // unwatched place, ended watch, or housekeeping only
+		if len(raws) > 0 {
+			w.Feat["housekeeping-only-ops"]++
+		}
+		return
+	}
+	wds := map[int32]bool{}
+	for _, r := range raws {
+		wds[r.Wd] = true
+		if l := len(r.Name); l > 0 && (l%16 == 15 || l%16 == 0 || l%16 == 1) {
+			w.Feat["boundary-name-events"]++
+		}
+		if len(r.Name) > 0 && !isASCII(r.Name) {
+			w.Feat["non-ascii-name-events"]++
+		}
+	}
+	if len(wds) >= 2 {
+		w.Feat["ops-reported-by-two-watches"]++
+	}
+	switch s.K {
+	case KLink, KRelease, KHold:
+		w.Feat["link-or-held-descriptor-ops-with-events"]++
+	case KRename:
+		if len(evs) >= 3 {
+			w.Feat["overwrite-or-multi-watch-renames"]++
+		}
+		w.Feat["renames-with-events"]++
+	}
+	if w.plugged && w.opsInSeg >= 2 {
+		w.Feat["events-decoded-at-offset>0"] += len(evs)
+	}
+}
+
+func isASCII(s string) bool {
+	for i := 0; i < len(s); i++ {
+		if s[i] >= 0x80 {
+			return false
+		}
+	}
+	return true
 }
 
 // other Watchers (C14) -------------------------------------------------------
@@ -396,10 +467,11 @@ func (w *World) Absorb() {
 func (w *World) SyncAbsorb() {
 	w.absorbing = false
 	exp := w.pending
-	w.pending = nil
+	opt := w.pendOpt
+	w.pending, w.pendOpt = nil, nil
 	if len(exp) > cap(w.W.Events) {
 		// not an absorb case after all; fall back to the ordinary protocol
-		w.pending = exp
+		w.pending, w.pendOpt = exp, opt
 		w.segBurst = true
 		w.Sync(nil)
 		return
@@ -508,7 +580,97 @@ func (w *World) Poll(n int, got *[]Ev) {
 
 func (w *World) gotError(err error) {
 	w.Errs = append(w.Errs, err)
+	if w.overflowing && errors.Is(err, fsnotify.ErrEventOverflow) {
+		w.Feat["overflow-errors-received"]++
+		return
+	}
 	w.find(FErrors, "received on Errors: %v", err)
+}
+
+// Overflow parks the reader, queues more notifications than the kernel queue
+// holds (fs.inotify.max_queued_events), releases the reader and consumes until
+// the kernel queue is empty. Oracle (C10): ErrEventOverflow is received on
+// Errors (recognisable with errors.Is) and nothing else; what was delivered
+// for the burst is not compared (the kernel dropped an unknown part).
+func (w *World) Overflow(dir string, n int) {
+	w.Plug()
+	w.overflowing = true
+	a, b := filepath.Join(dir, "ovf-a"), filepath.Join(dir, "ovf-b")
+	for _, p := range []string{a, b} {
+		if fd, err := unix.Open(p, unix.O_CREAT|unix.O_WRONLY|unix.O_CLOEXEC, 0o644); err == nil {
+			unix.Close(fd)
+		}
+	}
+	// alternating attribute changes: one notification each, never merged
+	for i := 0; i < n; i++ {
+		if i%2 == 0 {
+			unix.Chmod(a, 0o600+uint32(i/2%2)*0o44)
+		} else {
+			unix.Chmod(b, 0o600+uint32(i/2%2)*0o44)
+		}
+		if i%64 == 63 {
+			w.M.Feed(w.Sh.Drain())
+		}
+	}
+	w.M.Feed(w.Sh.Drain())
+	w.M.Overflow = false
+	w.pending, w.pendOpt = nil, nil
+	// consume until the kernel queue is empty
+	var sink []Ev
+	deadline := time.Now().Add(2 * SyncTimeout)
+	for {
+		q, _ := Fionread(w.Wfd)
+		if q == 0 && len(w.W.Events) == 0 {
+			break
+		}
+		select {
+		case ev, ok := <-w.W.Events:
+			if !ok {
+				w.find(FClosed, "Events closed during overflow handling")
+				return
+			}
+			w.take(ev, &sink, "")
+			sink = sink[:0]
+		case err, ok := <-w.W.Errors:
+			if ok {
+				w.gotError(err)
+			}
+		case <-time.After(time.Millisecond):
+		}
+		if time.Now().After(deadline) {
+			w.wedge("kernel queue not drained after an overflow burst")
+			return
+		}
+	}
+	w.plugged = false
+	w.opsInSeg = 0
+	w.segBurst = false
+	// everything still in flight precedes a fresh sentinel
+	save := w.pending
+	w.pending, w.pendOpt = nil, nil
+	w.lossy = true
+	w.Sync(nil)
+	w.lossy = false
+	w.pending = save
+	w.overflowing = false
+	if w.Feat["overflow-errors-received"] == 0 {
+		w.find(FErrors, "a burst of %d notifications overflowed the kernel queue (limit %d) but ErrEventOverflow was not received on Errors", n, MaxQueuedEvents())
+	}
+	w.Feat["overflow-bursts"]++
+}
+
+// MaxQueuedEvents reads fs.inotify.max_queued_events.
+func MaxQueuedEvents() int {
+	b, err := os.ReadFile("/proc/sys/fs/inotify/max_queued_events")
+	if err != nil {
+		return 16384
+	}
+	n := 0
+	fmt.Sscanf(strings.TrimSpace(string(b)), "%d", &n)
+	if n <= 0 {
+		return 16384
+	}
+	return n
 }
 
 // take classifies one received event; returns true when it is sentinel `s`.
@@ -517,6 +679,10 @@ func (w *World) take(ev fsnotify.Event, got *[]Ev, s string) bool {
 		return s != "" && ev.Name == s && ev.Has(fsnotify.Create)
 	}
 	w.Delivered++
+	if w.EvDirs == nil {
+		w.EvDirs = map[string]bool{}
+	}
+	w.EvDirs[filepath.Dir(ev.Name)] = true
 	*got = append(*got, Ev{ev.Name, ev.Op, fsnotify.VerifRenamedFrom(ev)})
 	return false
 }
@@ -557,8 +723,9 @@ loop:
 		}
 	}
 	w.plugged = false
-	exp := w.pending
-	w.pending = nil
+	exp, opt := w.pending, w.pendOpt
+	w.pending, w.pendOpt = nil, nil
+	exp, got = dropOptional(exp, opt, got)
 	seg := Segment{Burst: w.segBurst, Ops: w.opsInSeg, Expected: exp, Delivered: got}
 	w.Segments = append(w.Segments, seg)
 	if len(w.Segments) > 64 {
@@ -566,6 +733,9 @@ loop:
 	}
 	w.opsInSeg = 0
 	w.segBurst = false
+	if w.lossy {
+		return
+	}
 	if w.M.Overflow || (w.R != nil && w.R.Overflow) {
 		inconclusive("shadow queue overflowed; burst too large for the exact oracle")
 	}
@@ -639,6 +809,51 @@ func (w *World) wedge(what string) {
 		all = append(all, g)
 	}
 	inconclusive("%s\n%s", detail, strings.Join(all, "\n\n"))
+}
+
+// dropOptional removes expected events marked optional (their watch was
+// removed by the user while they were still pending: they may or may not be
+// delivered) together with the delivered events that match them.
+func dropOptional(exp []Ev, opt []bool, got []Ev) ([]Ev, []Ev) {
+	n := 0
+	for _, o := range opt {
+		if o {
+			n++
+		}
+	}
+	if n == 0 {
+		return exp, got
+	}
+	budget := map[string]int{}
+	var exp2 []Ev
+	for i, e := range exp {
+		if i < len(opt) && opt[i] {
+			budget[evKey(e)]++
+		} else {
+			exp2 = append(exp2, e)
+		}
+	}
+	// mandatory events with the same key keep their claim first
+	need := map[string]int{}
+	for _, e := range exp2 {
+		need[evKey(e)]++
+	}
+	have := map[string]int{}
+	for _, g := range got {
+		have[evKey(g)]++
+	}
+	var got2 []Ev
+	for i := len(got) - 1; i >= 0; i-- { // drop surplus from the back is as good as any
+		g := got[i]
+		k := evKey(g)
+		if have[k] > need[k] && budget[k] > 0 {
+			have[k]--
+			budget[k]--
+			continue
+		}
+		got2 = append([]Ev{g}, got2...)
+	}
+	return exp2, got2
 }
 
 // normalizeBurst applies the run-length rule: a maximal run of n identical
@@ -723,6 +938,15 @@ func (w *World) compare(seg Segment) {
 		for _, x := range extra {
 			if m.Op == x.Op && m.Name != x.Name {
 				w.find(FName, "event %v delivered under the name %q%s", m, x.Name, ctx())
+			}
+		}
+	}
+	// statement-level order check, independent of the model's sequence: a
+	// Create that carries an old name must directly follow the Rename of it
+	for i, g := range seg.Delivered {
+		if g.From != "" && g.Op&fsnotify.Create != 0 {
+			if i == 0 || seg.Delivered[i-1].Name != g.From || seg.Delivered[i-1].Op&fsnotify.Rename == 0 {
+				w.find(FOrder, "Create %q<-%q is not immediately preceded by the Rename of %q%s", g.Name, g.From, g.From, ctx())
 			}
 		}
 	}
@@ -821,6 +1045,14 @@ func (w *World) Add(p string) {
 	default:
 		w.Feat["add-new"]++
 		w.M.Live = append(w.M.Live, &MWatch{Path: c, Swd: swd})
+		if p != c || filepath.IsAbs(p) {
+			w.Feat["add-unclean-or-absolute-spelling"]++
+		}
+		if a, err := filepath.Abs(c); err == nil {
+			if r, err2 := filepath.EvalSymlinks(a); err2 == nil && r != a {
+				w.Feat["add-through-symlink"]++
+			}
+		}
 	}
 }
 
@@ -896,6 +1128,21 @@ func (w *World) RRemove(root string) {
 	if !errors.Is(werr, fsnotify.ErrNonExistentWatch) {
 		w.find(FRmErr, "Remove(%q) of an unlisted root returned %v", root+"/...", werr)
 	}
+}
+
+// RemoveNow calls Remove while events may still be pending (inside a burst).
+// Events of that watch which are still undelivered become optional: the
+// Watcher may drop them; nothing that happens under the path afterwards may be
+// reported.
+func (w *World) RemoveNow(p string) {
+	c := filepath.Clean(p)
+	for i, e := range w.pending {
+		if e.Name == c || strings.HasPrefix(e.Name, c+"/") {
+			w.pendOpt[i] = true
+		}
+	}
+	w.Feat["remove-inside-burst"]++
+	w.Remove(p)
 }
 
 // List compares WatchList with the model.
@@ -1021,6 +1268,8 @@ func Run(c *Case) (w *World) {
 			}
 			w.Plug()
 			synced = false
+		case s.K == KRemoveNow:
+			w.RemoveNow(string(s.P))
 		case s.K == KPoll:
 			w.StepErrs = append(w.StepErrs, "")
 			if !w.plugged && !w.absorbing {
@@ -1036,6 +1285,9 @@ func Run(c *Case) (w *World) {
 				}
 			}
 			switch s.K {
+			case KOverflow:
+				w.StepErrs = append(w.StepErrs, "")
+				w.Overflow(string(s.P), s.N)
 			case KAbsorb:
 				w.StepErrs = append(w.StepErrs, "")
 				if cap(w.W.Events) > 0 {
